@@ -180,6 +180,15 @@ def run_scene(key):
                     kw['atf_kwargs'] = dict(use_eig=True)
                 if name.split('+')[0] == 'gev' or '+gev' in name:
                     kw['use_eig'] = True
+            if variant == 'options':
+                # the documented ways of naming the output channel: a one-hot / soft channel selection vector for the
+                # Wiener filter, an explicit reference channel for the Souden MVDR
+                if name.endswith('wmwf'):
+                    sel = np.full(D, 0.1 / (D - 1))
+                    sel[k % D] = 0.9
+                    kw['channel_selection_vector'] = sel if k % 2 else np.eye(D)[k % D]
+                elif 'mvdr_souden' in name:
+                    kw['ref_channel'] = (k + 1) % D
             try:
                 W.append(np.asarray(bw.get_bf_vector(name, target, interf, **kw)))
             except Exception as e:  # noqa
@@ -220,6 +229,7 @@ def subchecks(tier, seed):
                                 if F == 33 and family == 'random' and (thorough or pk == 'random'):
                                     yield (K, D, F, T, model, pk, family, -40, 'eig', seed)
                                     yield (K, D, F, T, model, pk, family, -40, 'contiguous', seed)
+                                    yield (K, D, F, T, model, pk, family, -40, 'options', seed)
                                     yield (K, D, F, T, model, pk, family, -40, 'fit_predict_small', seed)
                                 if F == 33 and family == 'random' and (thorough or pk == 'random'):
                                     # much quieter sensor noise ("at least 40 dB below the sources")
